@@ -84,6 +84,12 @@ CLAIMED["C07"] = dict(
    technique="symbolic-execution engine used as a deterministic work meter; bounded exploration of enumerated adversarial programs",
    ref="DESIGN.md §5 C07")
 
+CLAIMED["C10"] = dict(
+   text="Bounded model checking of the real UnmarshalJSON code with symbolic documents: 32 value-document shapes and 9 variable-map shapes (well-typed, ill-typed, missing / null fields, nested nulls, unknown native names, wrong container kinds, scalars) whose type tags and numbers are 64-bit solver symbols, so every known and unknown tag is a case of the decoder's switch; every successfully decoded value then goes through printing, repr, truthiness, equality, clone, re-serialisation, dict-key use and scripts that index, call, negate, compare, iterate and roll with it; every Go panic site on every feasible path is a verification condition, stack exhaustion counts as a crash.",
+   note="JSON syntax and struct-tag mapping are the engine's model of encoding/json (real tokenizer, type-driven mapper that calls the code's own UnmarshalJSON methods back); symbolic numbers travel as sentinel literals. Documents outside the 41 shapes (deeper nesting, other field combinations) are outside the claim. Defects found and fixed: unknown native names / tags, null elements, null variables, native-object shells.",
+   technique="symbolic execution of the decoder and VM with symbolic type tags + SMT panic-site VCs",
+   ref="DESIGN.md §5 C10")
+
 NA = {
 }
 
